@@ -364,23 +364,38 @@ func (b *c14Bracket) Write(p []byte) (int, error) {
 }
 
 type retSpy struct {
-	h      http.Header
+	h      http.Header // what the client receives: frozen when the status goes out, the way a connection does it
+	live   http.Header // the map Header() keeps handing out after that (changes to it reach nobody)
 	status int
 	body   []byte
 	calls  int
 	failW  bool
 }
 
-func (s *retSpy) Header() http.Header { return s.h }
+func (s *retSpy) Header() http.Header {
+	if s.live != nil {
+		return s.live
+	}
+	return s.h
+}
+
+// commit: the header goes out with the status; what is set afterwards is not sent.
+func (s *retSpy) commit() {
+	if s.live == nil && s.h != nil {
+		s.live, s.h = s.h, s.h.Clone()
+	}
+}
 func (s *retSpy) WriteHeader(c int) {
 	s.calls++
 	if s.status == 0 {
 		s.status = c
+		s.commit()
 	}
 }
 func (s *retSpy) Write(b []byte) (int, error) {
 	if s.status == 0 {
 		s.status = 200
+		s.commit()
 	}
 	if s.failW {
 		return 0, errors.New("injected: connection gone")
